@@ -89,18 +89,36 @@ func families(run *vk.Run) []*family {
 		}
 		return 0
 	}, "base2")
-	for _, f := range []*family{fc, fa} {
+	req := fedlab.SReq()
+	fr := &family{name: "S-req", s: req, u: fedlab.SReqUniverse(req), schema: mustSchema(req.SDL())}
+	fr.layout = fedlab.ByType(req, 3, func(r fedlab.FieldRef) int {
+		switch r.String() {
+		case "Item.shipping", "Item.volume", "Item.summary", "Query.boxes", "Box.size", "Box.content":
+			return 1
+		case "Item.weight", "Item.dims", "Maker.label", "Item.spec", "Item.parts":
+			return 2
+		}
+		return 0
+	}, "base3")
+	for _, f := range []*family{fc, fa, fr} {
 		f.ops = fedlab.GenOps(fedlab.GenConfig{Schema: f.schema, Widths: vk.Pick(run, []int{1, 2, 1}, []int{1, 2, 2}), ArgMenu: func(t, fl string) [][]fedlab.ArgUse {
 			switch t + "." + fl {
 			case "Query.user":
 				return [][]fedlab.ArgUse{{{Name: "id", Value: `"u1"`}}}
 			case "Query.node":
 				return [][]fedlab.ArgUse{{{Name: "id", Value: `"b1"`}}}
+			case "Query.item":
+				return [][]fedlab.ArgUse{{{Name: "id", Value: `"i1"`}}}
 			}
 			return nil
 		}}, "query")
+		// every operation also with all fields aliased
+		n := len(f.ops)
+		for _, op := range f.ops[:n] {
+			f.ops = append(f.ops, fedlab.AliasAll(op))
+		}
 	}
-	return []*family{fc, fa}
+	return []*family{fc, fa, fr}
 }
 
 type fail struct{ clause, site, detail string }
@@ -465,7 +483,7 @@ func TestCheck(t *testing.T) {
 							if rin != nil {
 								fmt.Printf("FAILED %s [%s]\n%s\n", fl.clause, fl.site, fl.detail)
 							}
-							run.Violate(vk.Violation{Clause: fl.clause, Site: fl.site, Class: f.name,
+							run.Violate(vk.Violation{Clause: fl.clause, Site: fl.site, Class: f.name + deferClass(f.s, q),
 								Detail: fmt.Sprintf("operation %s\ncompletion order (choice indices) %v\nreleased: %s\n%s\nframes:\n%s", q, x.Choices, strings.Join(shorten(x.Order), " ; "), fl.detail, strings.Join(o.w.frames, "\n")),
 								Input:  map[string]any{"family": f.name, "op": q, "order": x.Choices}})
 						}
@@ -497,6 +515,48 @@ func TestCheck(t *testing.T) {
 			synctest.Wait()
 		}
 	})
+}
+
+// deferClass refines the fingerprint: a @defer fragment that covers (part of) an
+// entity key is its own class.
+func deferClass(s *fedlab.Supergraph, q string) string {
+	keyTypes := map[string]bool{}
+	keyFields := map[string]bool{}
+	for _, t := range s.Types {
+		for _, f := range t.Fields {
+			if f.Key {
+				keyFields[f.Name] = true
+				keyTypes[fedlab.NamedType(f.Type)] = true
+			}
+		}
+	}
+	// fields of value types that occur inside a key (info { a b })
+	for _, t := range s.Types {
+		if keyTypes[t.Name] && t.Kind == "object" {
+			for _, f := range t.Fields {
+				keyFields[f.Name] = true
+			}
+		}
+	}
+	// crude but stable: look at the field names directly inside each deferred fragment
+	for _, part := range strings.Split(q, "@defer")[1:] {
+		i := strings.Index(part, "{")
+		if i < 0 {
+			continue
+		}
+		rest := strings.TrimLeft(part[i+1:], " ")
+		name := rest
+		if j := strings.IndexAny(rest, " {}("); j >= 0 {
+			name = rest[:j]
+		}
+		if k := strings.Index(name, ":"); k >= 0 {
+			continue
+		}
+		if keyFields[name] {
+			return " / @defer covers a key field"
+		}
+	}
+	return ""
 }
 
 func shorten(ss []string) []string {
